@@ -1465,11 +1465,22 @@ class _ProtoBuilder:
             }
 
             # Find the method config that applies to us, if any.
+            # A name with both service and method takes precedence over
+            # a name with the service only (or an empty method), which
+            # applies to every method of that service.
+            service_selectors = (
+                {"service": selector["service"]},
+                {"service": selector["service"], "method": ""},
+            )
+            method_configs = self.opts.retry.get("methodConfig", [])
             mc = next(
+                (c for c in method_configs if selector in c.get("name")),
+                None,
+            ) or next(
                 (
                     c
-                    for c in self.opts.retry.get("methodConfig", [])
-                    if selector in c.get("name")
+                    for c in method_configs
+                    if any(s in c.get("name") for s in service_selectors)
                 ),
                 None,
             )
